@@ -448,13 +448,122 @@ pub fn check(tier: Tier) -> i32 {
     // Tier B: random reports, round trip + every truncation point for a quarter of them
     drive(&ctx, "random", tier.pick(20_000, 400_000), case_strategy, run_case);
 
+    // Tier C: end-to-end cross-check - reports written by `fclones group` on generated trees with
+    // hostile names, cut at many offsets, fed to `fclones remove --dry-run`
+    drive(&ctx, "cli-truncation", tier.pick(120, 1500), cli_case_strategy, cli_run_case);
+    crate::run::cleanup_process_scratch();
+
     ctx.finish(
         "exploration",
-        "in-process through fclones' public ReportWriter / open_report. Tier A (bounded-exhaustive): every string of <=3 (quick) / <=4 (thorough) symbols over the 20-symbol hostile alphabet as the first, middle and last component of a path, as a command argument and as a base-dir component, written and read back in the text and JSON formats. Tier B (random, shrinking): reports with 0-6 groups (plus occasionally a group of 1023..2050 files), arbitrary non-NUL path bytes, 1-5 arguments, arbitrary ms timestamps and offsets, statistics, 16/32/64-byte hashes; a quarter of them are additionally cut at every byte offset (reports <=1500 B) or at all line boundaries +-2 and a stride (larger): the reader must return only original groups that end before the cut and must not report a clean end inside a group. Oracle: read(write(r)) == r field by field (paths and arguments compared as bytes, timestamp at ms). Non-trivial = a path, argument or base dir contains a byte outside [A-Za-z0-9/._-].",
+        "in-process through fclones' public ReportWriter / open_report. Tier A (bounded-exhaustive): every string of <=3 (quick) / <=4 (thorough) symbols over the 20-symbol hostile alphabet as the first, middle and last component of a path, as a command argument and as a base-dir component, written and read back in the text and JSON formats. Tier B (random, shrinking): reports with 0-6 groups (plus occasionally a group of 1023..2050 files), arbitrary non-NUL path bytes, 1-5 arguments, arbitrary ms timestamps and offsets, statistics, 16/32/64-byte hashes; a quarter of them are additionally cut at every byte offset (reports <=1500 B) or at all line boundaries +-2 and a stride (larger): the reader must return only original groups that end before the cut and must not report a clean end inside a group. Oracle: read(write(r)) == r field by field (paths and arguments compared as bytes, timestamp at ms). Tier C (end to end): the text and JSON reports of `fclones group` on generated trees with hostile names are cut at every line boundary +-2 and a stride and piped to `fclones remove --dry-run`: the printed script may name only files of groups that are complete before the cut, and a cut strictly inside a group must give a non-zero exit status. Non-trivial = a path, argument or base dir contains a byte outside [A-Za-z0-9/._-].",
         &["paths are absolute, components are non-empty, NUL-free and not . or ..; arguments are non-empty and NUL-free", "a cut that removes only the final newline of the last path line may be accepted (all data present)"],
     )
 }
 
 pub fn replay(file: &std::path::Path) -> i32 {
     replay_one::<C10Case, _>("C10", file, run_case)
+}
+
+
+// ---- Tier C: CLI cross-check --------------------------------------------------------------------
+
+use crate::ded::{build_and_group, dcase_strategy, DCase, Op, ScenarioProfile};
+use crate::props::c20::intended_files;
+use crate::run::{Fs, Run};
+use crate::tree::Names;
+
+fn cli_case_strategy() -> BoxedStrategy<DCase> {
+    dcase_strategy(ScenarioProfile {
+        names: Names::Hostile,
+        dir_names: Names::Hostile,
+        patterns: false,
+        priorities: false,
+        symlinks: false,
+        match_links_ok: false,
+        rf: false,
+        ops: vec![Op::Remove],
+        files: (5, 12),
+        hardlinks: 0,
+    })
+}
+
+fn cli_run_case(c: &DCase, n: u64) -> Verdict {
+    let g = build_and_group("c10", c, n, Fs::Tmpfs);
+    if g.group.timed_out {
+        return Verdict::Inconclusive("timeout".into());
+    }
+    if !g.group.ok() {
+        return Verdict::Discard("group-rejected".into());
+    }
+    let bytes = &g.report_bytes;
+    // group extents in the text format: [start of header line, end of last path line)
+    let mut extents: Vec<(usize, usize, Vec<Vec<u8>>)> = vec![];
+    if c.text {
+        let mut pos = 0;
+        for line in bytes.split_inclusive(|b| *b == b'\n') {
+            let start = pos;
+            pos += line.len();
+            if line.starts_with(b"#") {
+                continue;
+            }
+            if line.starts_with(b"    ") {
+                if let Some(last) = extents.last_mut() {
+                    last.1 = pos;
+                    let txt = String::from_utf8_lossy(&line[4..line.len() - 1]).to_string();
+                    last.2.push(unesc(&txt).unwrap_or_default());
+                }
+            } else {
+                extents.push((start, pos, vec![]));
+            }
+        }
+    }
+    let mut cuts: Vec<usize> = vec![];
+    for (i, ch) in bytes.iter().enumerate() {
+        if *ch == b'\n' {
+            for d in 0..5i64 {
+                let p = i as i64 + d - 2;
+                if p >= 0 && (p as usize) < bytes.len() {
+                    cuts.push(p as usize);
+                }
+            }
+        }
+    }
+    cuts.extend((0..bytes.len()).step_by(53));
+    cuts.sort();
+    cuts.dedup();
+    // keep the number of processes per case bounded
+    let stride = (cuts.len() / 40).max(1);
+    let mut checked = 0;
+    for cut in cuts.into_iter().step_by(stride) {
+        let out = Run::fclones(&g.cd).arg("remove").arg("--dry-run").stdin(bytes[..cut].to_vec()).run();
+        checked += 1;
+        if out.timed_out {
+            return Verdict::Inconclusive("timeout".into());
+        }
+        let mk = |clause: &str, detail: String| Verdict::Fail {
+            clause: clause.into(),
+            detail: format!("{}\nreport ({} bytes, {}) cut at byte {} | fclones remove --dry-run\n{}\n{}", g.group_cmd, bytes.len(), if c.text { "text" } else { "json" }, cut, detail, out.brief()),
+            sig: vec![if c.text { "text".to_string() } else { "json".to_string() }, "cli".into()],
+        };
+        if out.crashed() {
+            return mk("dedupe-crashes-on-truncated-report", String::new());
+        }
+        let named = intended_files(&out.stdout);
+        if !c.text {
+            // a truncated JSON document is never acceptable
+            if out.ok() || !named.is_empty() {
+                return mk("truncated-json-acted-on", format!("script names {:?}", named.iter().map(|p| B(p.clone())).collect::<Vec<_>>()));
+            }
+            continue;
+        }
+        let complete: Vec<&Vec<u8>> = extents.iter().filter(|e| e.1 <= cut || e.1 == cut + 1).flat_map(|e| e.2.iter()).collect();
+        if let Some(bad) = named.iter().find(|p| !complete.contains(p)) {
+            return mk("script-names-file-of-incomplete-group", format!("{:?} is named by the script but its group is not complete before the cut", B(bad.clone())));
+        }
+        let inside = extents.iter().any(|e| e.0 < cut && cut + 1 < e.1);
+        if inside && out.ok() {
+            return mk("cut-inside-group-accepted", "exit status 0".into());
+        }
+    }
+    Verdict::Pass { nontrivial: checked > 0 && !extents.is_empty(), classes: vec!["cli-truncation".into(), if c.text { "text".to_string() } else { "json".to_string() }] }
 }
